@@ -42,12 +42,17 @@ type Nils struct { // every field nil
 }
 type Meth struct{ V int }
 
-func (m Meth) Get() int                { return m.V }
-func (m Meth) Greet(n string) string   { return "hi " + n }
-func (m Meth) Two() (int, error)       { return 1, nil }
-func (m Meth) Void()                   {}
-func (m *Meth) Ptr() string            { if m == nil { return "nilrecv" }; return "ptr" }
-func (m Meth) Variadic(a ...int) int   { return len(a) }
+func (m Meth) Get() int              { return m.V }
+func (m Meth) Greet(n string) string { return "hi " + n }
+func (m Meth) Two() (int, error)     { return 1, nil }
+func (m Meth) Void()                 {}
+func (m *Meth) Ptr() string {
+	if m == nil {
+		return "nilrecv"
+	}
+	return "ptr"
+}
+func (m Meth) Variadic(a ...int) int { return len(a) }
 
 type shape struct {
 	name string
